@@ -26,6 +26,7 @@ type plan struct {
 	CredClass []string // how each presented credential was derived (evidence only)
 	Methods   []byte   // raw SOCKS5 client: the METHODS list
 	WantPos   int      // position of the server's method in Methods, -1 = absent
+	Pushy     bool     // raw SOCKS5 client: send the request even after a refusal
 	Cmd       byte
 	Target    target
 	BadTarget string // raw HTTP client only: a request-target without a valid port
@@ -454,6 +455,7 @@ func genPlan(rt *rapid.T) plan {
 		if p.WantPos >= 0 {
 			p.Methods[p.WantPos] = want
 		}
+		p.Pushy = rapid.IntRange(0, 2).Draw(rt, "pushy") == 0
 	}
 	if http && p.Peer == "raw" {
 		p.Variant = httpVariant{
